@@ -128,6 +128,10 @@ where
     F: Fn(&[u8]) -> CaseResult + Sync,
 {
     let n = shards() as u64;
+    let total_cases = std::env::var("VERIF_CASES")
+        .ok()
+        .and_then(|s| s.parse().ok())
+        .unwrap_or(total_cases);
     let per = total_cases.div_ceil(n);
     let stop = AtomicBool::new(false);
     let merged = Mutex::new(Stats::default());
